@@ -5,7 +5,7 @@
    session); servers in every mode with session tickets disabled.  Chain verification is the abstract predicate
    "certificate id is in c_trusted / s_client_trusted" (what Verify returns at the configured time, name, roots). *)
 From Coq Require Import List NArith Arith Bool Lia.
-From GmsmVerif Require Import Lib.Outcome HS.HSTerms HS.HSModel HS.HSProofs HS.HSClientFlight HS.HSServerFlight HS.HSAuth.
+From GmsmVerif Require Import Lib.Outcome HS.HSTerms HS.HSModel HS.HSProofs HS.HSClientFlight HS.HSServerFlight HS.HSAuth HS.HSNames.
 Import ListNotations.
 Local Open Scope N_scope.
 
@@ -125,6 +125,16 @@ Theorem C08_agreement : forall ccfg scfg ins_c ins_s st_c st_s,
 Proof. exact agreement. Qed.
 Print Assumptions C08_agreement.
 
+(* 5. The server-name check behind "Verify returned a chain ... for the requested server name" (the model's c_trusted is
+   computed with it in the correspondence runs): names match only label by label - same labels after the first one, the
+   first label of the pattern equal to the host's or the wildcard - so a wildcard certificate is valid for names with
+   exactly one label in its place, never for more or fewer labels. *)
+Theorem C08_server_name_match_is_label_by_label : forall pattern host,
+  match_hostnames pattern host = true ->
+  exists p0 pr h0, labels pattern = p0 :: pr /\ labels host = h0 :: pr /\ (p0 = [42] \/ p0 = h0).
+Proof. exact match_hostnames_labels. Qed.
+Print Assumptions C08_server_name_match_is_label_by_label.
+
 (* ---- non-vacuity ----------------------------------------------------------------------------------------- *)
 Definition ex_sig := TCert 1 KIND_SM2 KU_SIGN 101.
 Definition ex_enc := TCert 2 KIND_SM2 KU_ENC 102.
@@ -188,3 +198,15 @@ Proof.
   split; intros u Hin; vm_compute in Hin;
     repeat (destruct Hin as [<-|Hin]; [cbn; repeat split; try discriminate; auto|]); destruct Hin.
 Qed.
+
+(* "*.example.test" against: a.example.test, A.Example.Test., example.test, a.b.example.test, a.example.test.evil.test, xexample.test *)
+Definition ex_str (l : list N) := l.
+Definition s_wild := [42;46;101;120;97;109;112;108;101;46;116;101;115;116].
+Example C08_server_name_examples :
+  match_hostnames s_wild ([97;46] ++ skipn 2 s_wild) = true /\
+  match_hostnames s_wild ([65;46;69;120;97;109;112;108;101;46;84;101;115;116;46]) = true /\
+  match_hostnames s_wild (skipn 2 s_wild) = false /\
+  match_hostnames s_wild ([97;46;98;46] ++ skipn 2 s_wild) = false /\
+  match_hostnames s_wild ([97;46] ++ skipn 2 s_wild ++ [46;101;118;105;108;46;116;101;115;116]) = false /\
+  match_hostnames s_wild ([120] ++ skipn 2 s_wild) = false.
+Proof. vm_compute. repeat split; reflexivity. Qed.
